@@ -8,9 +8,10 @@ import (
 
 func TestVerifReplay(t *testing.T) {
 	vrt.RunReplay(t, map[string]func(){
-		"VerifC09Quick":      VerifC09Quick,
-		"VerifC09Thorough":   VerifC09Thorough,
-		"VerifC11RuleChange": VerifC11RuleChange,
-		"VerifC07Invoke":     VerifC07Invoke,
+		"VerifC09Quick":       VerifC09Quick,
+		"VerifC09Thorough":    VerifC09Thorough,
+		"VerifC09TwoRequests": VerifC09TwoRequests,
+		"VerifC11RuleChange":  VerifC11RuleChange,
+		"VerifC07Invoke":      VerifC07Invoke,
 	})
 }
